@@ -11,10 +11,9 @@
 (* line of the trace.  A release of the source that the model does not     *)
 (* produce, a missing one, a terminal delivered twice or to the wrong      *)
 (* observer, a second live subscription: no placement explains the run.    *)
-(* The run is accepted for the code's single counter (aware = FALSE) or    *)
-(* for a counter per generation (aware = TRUE): the second is the repaired *)
-(* design in which Released holds, so that a repair of the known finding   *)
-(* is not reported.                                                        *)
+(* The cfg fixes Aware = {TRUE}: the counter per generation of the code    *)
+(* (fix 75994e7); a run that only the former single counter explains is    *)
+(* rejected.                                                               *)
 (***************************************************************************)
 EXTENDS ShareImpl, Json
 
